@@ -12,10 +12,12 @@ PROFILES = ["dev", "release"]
 THEOREMS = ["open2_total_safe_refuted", "open2_release_total_safe", "open2_dev_panic_iff", "open2_total_safe_partial",
             "open2_profiles_agree", "open2_alloc_bounded", "open2_ok_means_listable", "open2_ok_iff",
             "open2_names_are_c03_decoder", "open2_max_off_irrelevant", "open2_requires_names",
-            "prefix_rejected_open2_partial", "open2_code_shape"]
-RULE = ("cases: pre fs from to file (every prefix length in from..to-1 of one real archive, written to a real file on fs = "
+            "prefix_rejected_open2_partial", "open2_complete_archive_ok", "open2_code_shape"]
+RULE = ("cases: pre fs from to file (every prefix length in from..to-1 of one valid archive - real ragc archives made by "
+        "StreamingQueueCompressor and python-written containers that open - written to a real file on fs = "
         "ext4 (/verif/.cache/tmp) or shm (/dev/shm), opened with ragc_core::Decompressor::open under catch_unwind, "
-        "RLIMIT_AS 400 MB, counting allocator); craft fs variant params payload delta (a complete archive written with "
+        "RLIMIT_AS 400 MB, counting allocator); prec = the same on container-level files that are not valid archives (incl. the "
+        "props/C14.v file whose 19-byte prefix Archive::open accepts); craft fs variant params payload delta (a complete archive written with "
         "ragc_common::Archive: which of the four required streams exist, 0/1/2 params parts of the given bytes (every length "
         "0..24), collection-samples part = zstd::encode_all(payload) / raw payload / empty / absent / two parts, metadata = "
         "len(payload)+delta; payloads: valid sample tables (ASCII, multi-byte UTF-8, empty names), truncated tables, counts "
@@ -48,6 +50,7 @@ ASSUMPTIONS = ["bytes are < 256 (file and zstd output)",
                "amortised doubling over ATable entries; anyhow error strings are constant-size"]
 M64 = (1 << 64) - 1
 CHUNK = 256
+EXPECT = {}         # (hex head, length) of a valid archive -> (k, [sample name bytes]) that the complete file must list
 STATS = {"archives": [], "prefixes": 0, "tokens": {}, "observations": {}, "accepted_prefixes": [], "archive_ok_prefixes": 0}
 STRICT_CRAFTED = os.environ.get("C14O_STRICT_CRAFTED") == "1"
 THR = 0xEFDFBF80          # smallest 32-bit value whose sum with THR_4 = 270549120 leaves u32
@@ -262,7 +265,7 @@ def real_archives(rng, n):
     specs = []
     for i in range(n):
         specs.append("mk %d %d %d %d %d %d" % (rng.getrandbits(30), rng.choice([1, 2, 2, 3]), rng.choice([1, 1, 2, 3]),
-                                               rng.choice([10, 100, 300, 600]), rng.choice([11, 15, 21, 31]),
+                                               rng.choice([10, 100, 300, 600, 2000 if i % 5 == 4 else 200]), rng.choice([11, 15, 21, 31]),
                                                rng.choice([100, 200, 1000, 60000])))
     binp = vlib.harness_bin("c14o", "release")
     if not os.path.exists(binp):
@@ -275,8 +278,29 @@ def real_archives(rng, n):
     return out
 
 
+def expect(b, k, names):
+    EXPECT[(hx(b)[:64], len(b))] = (k, names)
+
+
+def valid_container(rng):
+    """a python-written container that Decompressor::open accepts (directory layout unlike the real writer's)"""
+    t, names = table(rng, rng.choice([0, 1, 2, 4]))
+    st = [(b"collection-samples", 0, [(zraw(t), len(t))]), (b"collection-contigs", rng.choice([0, 7]), []),
+          (b"collection-details", 0, [(b"", 0)] * rng.randrange(2)), (b"file_type_info", 0, [(b"x", 1)]),
+          (b"params", rng.choice([0, 16]), [((PARAMS16 + b"\x00\x00\x00\x00")[: rng.choice([12, 16, 20])], 0)])]
+    rng.shuffle(st)
+    b = container(st)
+    expect(b, 21, names)
+    return b
+
+
+def pre_cases(kind, fs, b):
+    h = hx(b)
+    return [f"{kind} {fs} {lo} {min(lo + CHUNK, len(b) + 1)} {h}" for lo in range(0, len(b) + 1, CHUNK)]
+
+
 def gen_cases(rng, tier):
-    nreal, ncraft, npy = (5, 1200, 1200) if tier == "quick" else (60, 40000, 40000)
+    nreal, nvalid, ncont, ncraft, npy = (10, 6, 6, 4000, 4000) if tier == "quick" else (60, 40, 40, 40000, 40000)
     STATS["archives"], STATS["prefixes"] = [], 0
     arch = real_archives(rng, nreal)
     if len(arch) < nreal:
@@ -284,11 +308,22 @@ def gen_cases(rng, tier):
     cs = []
     for i, (what, b) in enumerate(arch):
         STATS["archives"].append({"what": what, "bytes": len(b)})
+        f = what.split()
+        expect(b, int(f[5]), [b"s%d" % j for j in range(int(f[2]))])
         for fs in (("ext4", "shm") if i < 2 else (("ext4", "shm")[i % 2],)):
             STATS["prefixes"] += len(b)
-            h = hx(b)
-            for lo in range(0, len(b) + 1, CHUNK):
-                cs.append(f"pre {fs} {lo} {min(lo + CHUNK, len(b) + 1)} {h}")
+            cs += pre_cases("pre", fs, b)
+    for i in range(nvalid):
+        b = valid_container(rng)
+        STATS["archives"].append({"what": "python container (valid) #%d" % i, "bytes": len(b)})
+        STATS["prefixes"] += len(b)
+        cs += pre_cases("pre", ("ext4", "shm")[i % 2], b)
+    # container-level files that are not valid archives: no panic, agreement with the model; the props/C14.v witness
+    conts = [container([(b"a", 0x0200010000000000, [(b"", 0), (b"", 0)])]), container([])]
+    conts += [py_container(rng) for _ in range(ncont)]
+    for i, b in enumerate(conts):
+        STATS["prefixes"] += len(b)
+        cs += pre_cases("prec", ("shm", "ext4")[i % 2], b)
     # the pinned witnesses of props/C14O.v and fixed edge cases
     p16 = hx(PARAMS16)
     cs += [f"craft shm 15.1.0.0.0 {p16} f0ffffffff 0", f"craft ext4 15.1.0.0.0 {p16} f0efdfbf80 0",
@@ -377,7 +412,8 @@ def oracle(case, impl):
         return "unparsable implementation line: " + impl[:100]
     toks, ck, m, fh, zt = s
     prof = "dev" if ck == "1" else "release"
-    if t[0] == "pre":
+    if t[0] in ("pre", "prec"):
+        valid = t[0] == "pre"
         lo, hi, n = int(t[2]), int(t[3]), len(unhx(t[4]))
         if len(toks) != min(hi, n + 1) - lo:
             return "wrong number of results"
@@ -388,14 +424,20 @@ def oracle(case, impl):
                 return f"prefix of length {k} of a {n}-byte archive: Decompressor::open panics"
             if c.startswith("?"):
                 return f"prefix of length {k}: unknown error message {c[:120]}"
-            if k < n and c.startswith("O"):
+            if valid and k < n and c.startswith("O"):
                 return f"strict prefix of length {k} of a {n}-byte archive is not refused: Decompressor::open returns a handle ({c[:60]})"
             if k < n and c != "A":
                 STATS["archive_ok_prefixes"] += 1
                 if len(STATS["accepted_prefixes"]) < 20:
                     STATS["accepted_prefixes"].append({"archive_bytes": n, "prefix": k, "stage_two_answer": c})
-            if k == n and not c.startswith("O"):
+            if valid and k == n and not c.startswith("O"):
                 return f"the complete archive does not open ({c[:60]})"
+            if valid and k == n:
+                want = EXPECT.get((t[4][:64], n))
+                f = c.split(":")
+                got = (int(f[1]), [unhx(x) for x in f[3].split(",")] if f[3] else [])
+                if want is not None and got != want:
+                    return f"the complete archive lists k={got[0]} samples={got[1]!r}, expected k={want[0]} samples={want[1]!r}"
         if m > 262144 + 32 * n + 4 * decoded_max(impl):
             return f"allocation request of {m} bytes while opening prefixes of a {n}-byte file"
         return None
@@ -416,7 +458,7 @@ def oracle(case, impl):
 
 def nontrivial(case, impl):
     t = case.split()
-    if t[0] == "pre":
+    if t[0] in ("pre", "prec"):
         return int(t[3]) > 8
     toks = tokens(impl)
     return bool(toks) and not toks[0].startswith("A")
